@@ -27,6 +27,10 @@ Record c16_concept := {
    upper bound is promised to bracket the stability) *)
 Record c16_snap := {
   s_complete : bool;
+  s_fresh : bool;                   (* every measure has been (re)computed since the lattice last changed; when
+                                       false the stored values may describe an earlier lattice and only the
+                                       storage clause is judged: one value per concept, array entry i = the
+                                       value held by concept i, equally long arrays *)
   s_concepts : list c16_concept;
   s_ops : list nat;                 (* every calc_concepts_measures call made so far, in order (see measure_op) *)
   s_keys : list nat;                (* keys of lattice.measures, in order *)
@@ -66,12 +70,14 @@ Definition is_log (v : option mval) (d : option (option nat)) (w : nat) : bool :
 Definition snap_model_ok (bk : backend) (t : table) (c : c16_snap) : bool :=
   let st := run_measures bk t (lat c) (chs c) (s_ops c) in
   let w := width t in
-  forallb (fun kd =>
-             let k := fst kd in let d := snd kd in
-             is_q (dict_get d 4) (k_stab k) && is_q (dict_get d 1) (k_lstab k) &&
-             is_q (dict_get d 2) (k_ustab k) && is_log (dict_get d 3) (k_logm k) w &&
-             is_log (dict_get d 3) (k_logd k) w)
-          (combine (s_concepts c) st) &&
+  (if s_fresh c then
+     forallb (fun kd =>
+                let k := fst kd in let d := snd kd in
+                is_q (dict_get d 4) (k_stab k) && is_q (dict_get d 1) (k_lstab k) &&
+                is_q (dict_get d 2) (k_ustab k) && is_log (dict_get d 3) (k_logm k) w &&
+                is_log (dict_get d 3) (k_logd k) w)
+             (combine (s_concepts c) st)
+   else true) &&
   match measures_m st with
   | None => false
   | Some md => nat_list_eqb (map fst md) (s_keys c) &&
@@ -102,18 +108,20 @@ Definition snap_spec_ok (t : table) (c : c16_snap) : bool :=
              (* the lattice's own children are the covers inside its family of extents *)
              set_of_lists_eqb (children_extents L (k_children k)) (lower_covers exts A) &&
              Nat.eqb (length (k_children k)) (length (lower_covers exts A)) &&
-             Qeq_bool (k_stab k) (stab_spec t A B) &&
-             Qeq_bool (k_lstab k) (lstab_spec exts A) &&
-             Qeq_bool (k_ustab k) (ustab_spec exts A) &&
-             match k_logd k, k_logm k with
-             | Some d, Some d' => opt_nat_eqb d md && opt_nat_eqb d' md &&
-                                  (if full then log_bound_holdsb (k_stab k) d w else true)
-             | _, _ => false
-             end &&
-             (* the inequalities, on the implementation's own numbers: the upper bound always, the
-                lower (and logarithmic) one only when the children are ALL lower covers *)
-             (if full then Qle_bool (k_lstab k) (k_stab k) else true) &&
-             Qle_bool (k_stab k) (k_ustab k))
+             (if s_fresh c then
+                Qeq_bool (k_stab k) (stab_spec t A B) &&
+                Qeq_bool (k_lstab k) (lstab_spec exts A) &&
+                Qeq_bool (k_ustab k) (ustab_spec exts A) &&
+                match k_logd k, k_logm k with
+                | Some d, Some d' => opt_nat_eqb d md && opt_nat_eqb d' md &&
+                                     (if full then log_bound_holdsb (k_stab k) d w else true)
+                | _, _ => false
+                end &&
+                (* the inequalities, on the implementation's own numbers: the upper bound always, the
+                   lower (and logarithmic) one only when the children are ALL lower covers *)
+                (if full then Qle_bool (k_lstab k) (k_stab k) else true) &&
+                Qle_bool (k_stab k) (k_ustab k)
+              else true))
           (s_concepts c) &&
   (* one value per concept, equally long arrays *)
   forallb (fun n => Nat.eqb n (length L)) (s_lens c) &&
@@ -131,7 +139,7 @@ Definition c16_check (c : c16_case) : nat :=
 
 Definition snap_show (bk : backend) (t : table) (c : c16_snap) :=
   let exts := map fst (lat c) in
-  (snap_model_ok bk t c, snap_spec_ok t c, s_complete c,
+  (snap_model_ok bk t c, snap_spec_ok t c, s_complete c, s_fresh c,
    map (fun k => let A := k_extent k in
                  (A, (stability_m bk t A (k_intent k),
                       stability_bounds_m A (children_extents (lat c) (k_children k)),
